@@ -4,7 +4,7 @@ import itertools
 import numpy as np
 
 from gambit.kmers import KmerSpec
-from gambit.metric import jaccarddist, jaccarddist_array
+from gambit.metric import jaccarddist, jaccarddist_array, jaccarddist_matrix, jaccarddist_pairwise
 from gambit.sigs import SignatureArray
 from .. import core
 from ..enc import f32_fields, ranks
@@ -17,7 +17,7 @@ def triple_record(av, bv, cv, x, dts):
     ra, rb, rc, rax, rbx = ranks(av, bv, cv, sorted(av + [x]), sorted(bv + [x]))
     z = f32_fields(0.0)
     r = dict(a=ra, b=rb, c=rc, ax=rax, bx=rbx, dts=list(dts), ok=False, err='',
-             d={n: z for n in ('ab', 'ba', 'ac', 'ca', 'bc', 'cb', 'wab', 'wba', 'aug', 'pab', 'pac', 'mab', 'mac', 'maa', 'mbc', 'qab', 'qac', 'lab', 'lac', 'lbc', 'lbb')})
+             d={n: z for n in ('ab', 'ba', 'ac', 'ca', 'bc', 'cb', 'wab', 'wba', 'aug', 'pab', 'pac', 'mab', 'mac', 'maa', 'mbc', 'qab', 'qac', 'lab', 'lac', 'lbc', 'lbb', 'saa')})
     try:
         A = np.array(av, dtype=dts[0]); B = np.array(bv, dtype=dts[1]); C = np.array(cv, dtype=dts[2])
         Aw = A.astype(WIDER[dts[0]]); Bw = B.astype(WIDER[dts[1]])
@@ -45,7 +45,6 @@ def triple_record(av, bv, cv, x, dts):
         else:
             d['pab'] = d['ab']; d['pac'] = d['ac']; d['qab'] = d['ab']; d['qac'] = d['ac']
         # the same distances once more through reference collections addressed by a permuted index list (matrix and all-pairs forms)
-        from gambit.metric import jaccarddist_matrix, jaccarddist_pairwise
         wide = np.dtype(max((np.dtype(x) for x in dts), key=lambda t: (t.itemsize, t.kind == 'u')))
         if all(int(v) <= int(np.iinfo(wide).max) for v in list(av) + list(bv) + list(cv)):
             coll = SignatureArray([B.astype(wide), C.astype(wide), A.astype(wide), B.astype(wide)], KmerSpec(16, 'ATG'))
@@ -63,6 +62,11 @@ def triple_record(av, bv, cv, x, dts):
                 d['mab'] = dict(d['mab'], bad='index-selected columns disagree with each other')
         else:
             d['mab'] = d['ab']; d['mac'] = d['ac']; d['mbc'] = d['bc']
+        # all-pairs form over ONE signature, written into a caller-supplied buffer that held other values: the single cell is d(A, A) = 0
+        one = np.full((1, 1), 0.75, dtype=np.float32)
+        res1 = jaccarddist_pairwise(SignatureArray([A.astype(wide) if 'wide' in dir() else A], KmerSpec(16, 'ATG')), out=one)
+        res2 = jaccarddist_pairwise([B], indices=[0])
+        d['saa'] = f32_fields(res1[0][0]) if float(res2[0][0]) == 0.0 else f32_fields(res2[0][0])
         # two queries against the references given as a plain list, each array in ITS OWN integer type
         lm = jaccarddist_matrix([A, B], [B, C])
         d['lab'] = f32_fields(lm[0][0]); d['lac'] = f32_fields(lm[0][1]); d['lbb'] = f32_fields(lm[1][0]); d['lbc'] = f32_fields(lm[1][1])
